@@ -288,16 +288,41 @@ def fuzz_stage(pid, ctx, cases):
         seeds = [fuzz_ops.from_line(mode, c["line"]) for c in cases]
         seeds = [s for s in seeds if s is not None]
         ctx.rng.shuffle(seeds)
-        # the literals themselves, alone and in front of / inside a few seeds
-        for l in lits[:40]:
-            for s in seeds[:3]:
-                seeds.append(s[:1] + l + s[1:])
-                seeds.append(s[:3] + l + s[3:])
-                k = len(s) // 2
-                seeds.append(s[:k] + l + s[k + len(l):])
-            seeds.append(bytes([0, 17, 5]) + l)
-        new, note = fuzz_ops.run_fuzz(core.REPO, mode, seeds, lits, runs[mode] * mult, ctx.seed + 1, work)
-        extra = [s for s in seeds if s is not None][-(40 * 10 + 40):] if lits else []
+        # the literals of the changed lines spliced into the property's own inputs: written over every byte offset
+        # of the first bytes of one seed per message number (a condition on particular payload bytes), in front of
+        # the data, and all of them together at the head of a stream / receive segment (a condition on how a
+        # connection begins)
+        spliced = []
+        texty = [l for l in lits if len(l) >= 2][:24]
+        if texty:
+            per_ident = {}
+            for s in seeds:
+                if len(s) >= 4:
+                    num = s[1] << 4 | s[2] >> 4
+                    k = (num, s[3] >> 1 if num == 4076 else 0) if mode in ("msg", "frame") else len(per_ident)
+                    if k not in per_ident or len(per_ident[k]) < len(s) <= 600:      # the longest: most groups populated
+                        per_ident[k] = s
+            reps = list(per_ident.values())[:400 if mode == "msg" else 24]
+            for l in texty:
+                for s in reps:
+                    for off in (list(range(1, 18)) if mode in ("msg", "frame") else [1, 3, 4]) + [len(s) // 2]:
+                        if off + len(l) <= len(s):
+                            spliced.append(s[:off] + l + s[off + len(l):])
+                    spliced.append(s[:1] + l + s[1:])
+            joined = b"".join(texty)
+            for sep in (b"", b" ", b"\r\n"):
+                j = sep.join(texty)
+                for s in reps[:6]:
+                    spliced.append((bytes([14, 0, 5]) if mode == "sock" else s[:1]) + j + sep + s[(3 if mode == "sock" else 1):])
+                    spliced.append((bytes([14, 0, 5]) if mode == "sock" else s[:1]) + j + b"\r\n\r\n" + s[(3 if mode == "sock" else 1):])
+            del joined
+        cap = 12000 if ctx.tier != "thorough" else 40000
+        if len(spliced) > cap:
+            ctx.rng.shuffle(spliced)
+            spliced = spliced[:cap]
+        new, note = fuzz_ops.run_fuzz(core.REPO, mode, seeds + spliced[:300], lits, runs[mode] * mult, ctx.seed + 1, work,
+                                      max_time=25 if ctx.tier != "thorough" else 150)
+        extra = spliced
         n = 0
         for b in new + extra:
             for line in fuzz_ops.to_ops(mode, b):
